@@ -226,7 +226,7 @@ func genOpen(w *World, cfg c02cfg) (body []byte, desc string) {
 			spec.Version = Pick(w, "ver", byte(0), 1, 3, 5, 255)
 			notes = append(notes, fmt.Sprintf("version=%d", spec.Version))
 		case 1:
-			spec.AS2 = Pick(w, "as2", uint16(0), 23456, as2+1, as2-1, 65535, uint16(w.Draw(65536, "as2r")))
+			spec.AS2 = Pick(w, "as2", uint16(0), 23456, as2+1, as2-1, 65535, uint16(w.Draw(65536, "as2r")), uint16(remoteAS), uint16(remoteAS), uint16(remoteAS>>16))
 			notes = append(notes, fmt.Sprintf("as2=%d", spec.AS2))
 		case 2:
 			spec.Hold = Pick(w, "holdm", uint16(1), 2, 0, 3, 4)
